@@ -17,6 +17,7 @@
 import BumpverVerif.Gen.F_replacePatternParts
 import BumpverVerif.Proofs.Tie_iterPartPatterns
 import BumpverVerif.Proofs.Tie_patternsSort
+set_option linter.unusedSimpArgs false
 namespace BV
 open PyP
 
@@ -300,9 +301,14 @@ theorem tie_replacePatternParts (partPatterns partFields : List (Str × Str)) (f
   intro x t
   simp only [substAbs, PosPart.toPair, sliceTo_natCast, sliceFrom_natCast]
   by_cases h : x.stop ≤ t.2
-  · have h' : ((x.stop : Nat) : Int) ≤ (t.2 : Int) := by omega
-    simp [h, h']
-  · have h' : ¬ ((x.stop : Nat) : Int) ≤ (t.2 : Int) := by omega
-    simp [h, h']
+  · -- the source may spell the test `end_idx <= last` or (with exchanged branches) `end_idx > last`
+    have h1 : ((x.stop : Nat) : Int) ≤ (t.2 : Int) := by omega
+    have h2 : ¬ ((t.2 : Int) < ((x.stop : Nat) : Int)) := by omega
+    have h3 : ¬ (t.2 < x.stop) := by omega
+    simp [h, h1, h2, h3]
+  · have h1 : ¬ ((x.stop : Nat) : Int) ≤ (t.2 : Int) := by omega
+    have h2 : (t.2 : Int) < ((x.stop : Nat) : Int) := by omega
+    have h3 : t.2 < x.stop := by omega
+    simp [h, h1, h2, h3]
 
 end BV
